@@ -99,9 +99,10 @@ def make_source(inp):
     from coba.pipes import IterableSource, Pipes, HeadRows
     from coba.environments import CsvSource, ArffSource, LibSvmSource, ManikSource
     src = inp["src"]
-    if src == "rows": return IterableSource([to_py(r) for r in inp["rows"]])
-    if src == "rowsH": return Pipes.join(IterableSource([to_py(r) for r in inp["rows"]]), HeadRows(list(inp["headers"])))
-    if src == "sparse": return IterableSource([to_py(r) for r in inp["rows"]])
+    if "_rows" not in inp: inp["_rows"] = [to_py(r) for r in inp["rows"]]      # converted once per case; the rows are never mutated by coba
+    if src == "rows": return IterableSource(list(inp["_rows"]))
+    if src == "rowsH": return Pipes.join(IterableSource(list(inp["_rows"])), HeadRows(list(inp["headers"])))
+    if src == "sparse": return IterableSource(list(inp["_rows"]))
     lines = IterableSource(list(inp["lines"]))
     if src == "csv": return CsvSource(lines)
     if src == "csvH": return CsvSource(lines, has_header=True)
@@ -117,8 +118,9 @@ def builders(inp):
     lt = None if inp["lt"] == "none" else inp["lt"]
     def via_envs(envs): return envs._envs[0], envs      # the un-finalized simulation (Finalize is C10's subject)
     if inp["src"] == "xy":
-        X = lambda: [to_py(x, tuple) for x in inp["xs"]]
-        Y = lambda: [to_py(y) for y in inp["ys"]]
+        if "_xs" not in inp: inp["_xs"], inp["_ys"] = [to_py(x, tuple) for x in inp["xs"]], [to_py(y) for y in inp["ys"]]
+        X = lambda: list(inp["_xs"])
+        Y = lambda: list(inp["_ys"])
         yield "positional", (lambda: (SupervisedSimulation(X(), Y(), lt), None)) if lt else (lambda: (SupervisedSimulation(X(), Y()), None))
         yield "keywords", lambda: (SupervisedSimulation(X(), Y(), label_type=lt), None)
         yield "from_supervised", lambda: via_envs(Environments.from_supervised(X(), Y(), label_type=lt))
@@ -161,7 +163,7 @@ def replay(ctx, c):
         return ctx.violation(sig, "%s  [src=%s label=%s label_type=%s label_col=%s take=%s n=%d, built by %s] input=%s" % (
             what, k["src"], k["lk"], k["lt"], json.dumps(c["inp"]["labelcol"]["v"]) if c["inp"]["labelcol"]["t"] != "none" else None,
             k["take"], k["n"], style, json.dumps(c["inp"]["lines"] or c["inp"]["rows"] or [c["inp"]["xs"], c["inp"]["ys"]])[:500]),
-            dict(case=c["case"], inp=c["inp"], expected=c["out"], style=style, plan=c["plan"]))
+            dict(case=c["case"], inp={a: b for a, b in c["inp"].items() if not a.startswith("_")}, expected=c["out"], style=style, plan=c["plan"]))
     for style, build in builders(c["inp"]):
         try:
             sim, envs = build()
